@@ -1328,6 +1328,11 @@ pub(crate) fn run_seeded<F: Fm, A: At>(
             Err(p) => {
                 if exp == Out::Panic {
                     Ok(Out::Panic)
+                } else if matches!(op, Op::Reserve(_, n) if *n > 0x8000_0000) && p.contains("overflow") {
+                    // documented "overflow in buffer arithmetic" panic of an unshared tendril;
+                    // the tendril must be left intact (checked right below)
+                    obs.exp_panic += 1;
+                    Ok(exp.clone())
                 } else {
                     Err(format!("unexpected {p}"))
                 }
@@ -1727,7 +1732,9 @@ pub(crate) fn gen_op(s: &mut Src, m: &mut Model, ops: &mut Vec<Op>) {
             emit(m, ops, Op::PopFrontCharRun { dst, src: live, cls });
         },
         17 => {
-            let n = gen_len(s);
+            // mostly small; sometimes beyond 2^31, where an unshared tendril must panic
+            // with the documented overflow message and stay intact
+            let n = if s.chance(40) { 0x8000_0001usize + s.below(0x7000_0000) } else { gen_len(s) };
             emit(m, ops, Op::Reserve(live, n as u32));
         },
         18 => {
